@@ -208,16 +208,40 @@ func checkC14(c *core.Ctx, r *core.Report) {
 	// ---------------------------------------------------------------- (2)
 	dsd := c.Fn(pkgRetention, "DeleteSegmentData")
 	removeBase := c.Obj(pkgWriter, "RemoveSegBasedirs")
-	delKey := c.Obj(pkgMeta, "DeleteSegmentKey")
+	// the in-memory deletion, named by its effect: a call from which a function that deletes from the segment
+	// reverse index (allSegmentMetadata.segmentMetadataReverseIndex) is reachable — DeleteSegmentKey today, or any
+	// other wrapper of the metadata package (a bulk form, a renamed one)
+	revIdx := c.Field(pkgMeta, "allSegmentMetadata.segmentMetadataReverseIndex")
+	delPrims := objSet{}
+	for _, f := range c.RepoFunctions() {
+		if core.FnPkgPath(f) != core.ModPath+"/"+pkgMeta || f.Object() == nil {
+			continue
+		}
+		for _, ci := range core.CallsIn(f) {
+			bi, ok := ci.Common().Value.(*ssa.Builtin)
+			if !ok || bi.Name() != "delete" {
+				continue
+			}
+			if ld, ok := ci.Common().Args[0].(*ssa.UnOp); ok {
+				if fa, ok := ld.X.(*ssa.FieldAddr); ok && core.FieldOfAddr(fa) == revIdx {
+					for k := range objs(f.Object()) {
+						delPrims[k] = true
+					}
+				}
+			}
+		}
+	}
+	r.Floor("ORDER", "functions that delete from the segment reverse index", len(delPrims), 1)
+	isDelKey := sm.mayPred(delPrims)
 	removeMetas := c.Obj(pkgWriter, "RemoveSegMetas")
-	checkOrder(c, r, dsd, "RemoveSegBasedirs", sm.mustPred(objs(removeBase)), "RemoveSegMetas", directPred(objs(removeMetas)), 1,
+	checkOrderDeep(c, r, sm, dsd, "RemoveSegBasedirs", objs(removeBase), "RemoveSegMetas", objs(removeMetas), false, 1,
 		"the durable segmeta entry must go last: if it is removed first and the pass is interrupted, the segment's files stay on disk forever")
 	// DeleteSegmentKey runs in a loop over the victims: it must not be reachable after RemoveSegMetas
 	{
 		var late ssa.Instruction
 		for _, rm := range callsTo(dsd, removeMetas) {
 			core.WalkForward(dsd, rm, func(in ssa.Instruction) bool {
-				if ci, ok := in.(ssa.CallInstruction); ok && (core.IsCallTo(ci, delKey) || core.IsCallTo(ci, removeBase)) {
+				if ci, ok := in.(ssa.CallInstruction); ok && (isDelKey(ci) || core.IsCallTo(ci, removeBase)) {
 					late = in
 				}
 				return true
@@ -225,7 +249,13 @@ func checkC14(c *core.Ctx, r *core.Report) {
 		}
 		r.Check(late == nil, "ORDER", shortFn(dsd)+":nothing-deleted-after-RemoveSegMetas", c.Pos(dsd.Pos()),
 			"no file or in-memory deletion is reachable after the segmeta entry was removed", "a deletion step runs after the durable segmeta entry was removed")
-		r.Check(len(callsTo(dsd, delKey)) >= 1, "ORDER", shortFn(dsd)+":in-memory-metadata-deleted", c.Pos(dsd.Pos()),
+		nDel := 0
+		for _, ci := range core.CallsIn(dsd) {
+			if isDelKey(ci) {
+				nDel++
+			}
+		}
+		r.Check(nDel >= 1, "ORDER", shortFn(dsd)+":in-memory-metadata-deleted", c.Pos(dsd.Pos()),
 			"segmetadata.DeleteSegmentKey is called for the victims", "deleted segments are not removed from the in-memory search metadata")
 	}
 	dmd := c.Fn(pkgRetention, "DeleteMetricsSegmentData")
